@@ -262,6 +262,53 @@ def rule_derived(ck, rid="C11.R5"):
         ck.require(guarded, rid, glt, r.expr, ok="only on the non-empty edge", bad="max() of an empty queue", sink="last-timestamp-guard")
 
 
+def rule_insertion(ck, rid="C11.R7"):
+    """every event handed to the queue is pushed: the constructor passes a given list on to add_events on every path where a list was
+    given, and add_events pushes each element exactly once, unfiltered (decision tables)"""
+    from .. import pathtab
+    repo = ck.repo
+    q = repo.cls("EventQueue")
+    init = repo.method(q, "__init__")
+    fl = flow_of(init)
+    ev = init.params[1]
+    rows = [r for r in pathtab.table(fl) if r.end != "raise"]
+    given = [r for r in rows if pathtab.implied(fl, r, lambda k, a: k == f"{ev} is None") is False]
+
+    def adds_all(kind, k, a):
+        return kind == "call" and k in (f"self.add_events({ev})",) or (kind == "call" and k == f"self.add_event(__elem__({ev}))")
+    pathtab.must_on(ck, rid, init, given, adds_all, 1, "the events given to the constructor are added to the queue", "init:add-events",
+                    ok="a queue built from a list of events contains them")
+    init_store = [n for n, k, p, t in state_writes(fl) if p == "self._queue" and k == "assign"]
+    adds = [n for n, c in calls_in(fl) if call_name(c) in ("add_events", "add_event")]
+    ck.require(bool(init_store) and all(fl.cfg.dominates(init_store[0], a_) for a_ in adds), rid, init, init_store[0].stmt if init_store else "self._queue = []",
+               ok="the heap array exists before events are pushed", bad="events are pushed before the heap array is created (or it is re-created afterwards)", sink="init:order")
+    late = [n for n in init_store if any(n in fl.cfg.reach_from_succ(a_) for a_ in adds)]
+    ck.require(not late, rid, init, late[0].stmt if late else "self._queue", ok="the heap array is not reset after the events were added",
+               bad="the heap array is re-created after the given events were pushed: they are lost", sink="init:reset-after")
+    ae = repo.method(q, "add_events")
+    al = flow_of(ae)
+    evs = ae.params[1]
+    arows = [r for r in pathtab.table(al) if r.end != "raise"]
+    looping = [r for r in arows if any(k == f"iterates {evs}" and t for k, t, _, _ in r.facts)]
+
+    def push_elem(kind, k, a):
+        return kind == "call" and k in (f"self.add_event(__elem__({evs}))", f"heapq.heappush(self._queue, (__elem__({evs}).timestamp, __elem__({evs})))")
+    pathtab.must_on(ck, rid, ae, looping, push_elem, 1, "each event of the list is pushed exactly once, unconditionally", "add_events:each",
+                    ok="add_events pushes every element")
+    ge = repo.method(q, "get_event")
+    gl = flow_of(ge)
+    for r in [n for n in gl.cfg.nodes if n.kind == "return"]:
+        e = gl.expand(r.expr, r)
+        pop = None
+        if isinstance(e, ast.Subscript) and canon(e.slice) == "1":
+            pop = e.value
+        elif isinstance(e, ast.Call) and call_name(e) == "__item__" and len(e.args) == 2 and canon(e.args[1]) == "1":
+            pop = e.args[0]          # `_, event = heappop(...)`; return event
+        ok = isinstance(pop, ast.Call) and call_name(pop) == "heappop" and pop.args and canon(pop.args[0]) == "self._queue"
+        ck.require(ok, rid, ge, r.expr, ok="pops the heap and returns the event component", bad=f"get_event returns `{src(e, 50)}`, not the event component (index 1) of heappop(self._queue)",
+                   sink="get_event:component")
+
+
 def rule_restore(ck, rid="C11.R6"):
     repo = ck.repo
     fd = repo.fn("EventQueue._from_dict")
@@ -308,6 +355,7 @@ def run(ck):
     ck.attempt(rule_precedence, rid="C11.R3")
     ck.attempt(rule_cut)
     ck.attempt(rule_derived)
+    ck.attempt(rule_insertion)
     ck.attempt(rule_restore)
     # "a queue restored from JSON behaves identically": every attribute of the queue and of the pending events - timestamp,
     # type and precedence (public, user-settable, it breaks ties) - is dumped and restored (engine shared with C09)
